@@ -117,4 +117,5 @@ def main() -> None:
     net.finish("bounded", "flat serialisation of 3..11 statements, frame sizes {1,2,3,5}, logical type given or inferred, both entry points; parse with a source stalling after each frame boundary",
                "write cases = (config, statement list) with pull counter; parse cases = (stream, stall offset)")
 if __name__ == "__main__":
-    main()
+    from common import run_main
+    run_main(main, "C11")
